@@ -524,7 +524,8 @@ def pick_pq(r, kind):
     q = r.choice(QS)
     p = None
     if kind == 'lpq':
-        p = r.choice([q, 2.0, (q + 2.0) / 2, round(r.uniform(q, 2.0), 3)])
+        # p = 1 and p = 2 are special values in the code (cdist fast paths, `p != 1` guards): make them frequent for every q
+        p = r.choice([q, 2.0, (q + 2.0) / 2, round(r.uniform(q, 2.0), 3), 1.0 if q <= 1.0 else 2.0])
     return q, p
 
 
